@@ -16,7 +16,7 @@ under valgrind memcheck; any use of an uninitialised value is a violation.
 import re
 from vlib import *  # noqa
 
-SOURCES = ["C02", "C06", "C07", "C08", "C16", "C03"]
+SOURCES = ["C02", "C06", "C07", "C08", "C16", "C03", "C14"]
 
 
 def custom(ctx):
